@@ -188,7 +188,7 @@ def check_c13(multi, res):
         a = c["asset"]
         d = res["computed"][a]
         rows = by_row(c)
-        mono = dates_monotone(c)
+        mono = dates_monotone(c) or multi.get("to") is None       # F9 concerns the to-date cut only
         io, tx = rp.inout(a), rp.tax(a)
         # ---------------- In-Out sheet
         # running sums over the whole history, in time order (ties: sheet order)
@@ -486,7 +486,7 @@ def check_c19(multi, res):
             e = evs[f["ev"]]
             year = hist.local_year(e["ts"])
             first_row_of_year.setdefault((a, year), rr)
-            if not dates_monotone(c):
+            if not dates_monotone(c):                  # (C19's F9 shape -- year blocks not contiguous -- needs no to-date)
                 nonmono.add(a)
             subjects = [("event", {0: "ins", 1: "outs", 2: "intras"}[e["cls"]], f["ev"], range(5, 12))]
             if f["lot"] is not None:
